@@ -585,16 +585,33 @@ fn finish_check(spec: &CheckSpec, agg: Agg, t0: Instant) -> i32 {
     let mut printed: HashSet<String> = HashSet::new();
     let mut machinery = agg.machinery.clone();
     let mut violation_list = Vec::new();
-    for (job, g) in &agg.findings {
+    // one report per (rule, what, program family, configuration); a family is a named scenario or
+    // a generator configuration
+    let family = |name: &str| name.split('#').next().unwrap_or(name).to_string();
+    let mut groups: BTreeMap<String, (u64, u64, usize)> = BTreeMap::new();
+    for (i, (job, g)) in agg.findings.iter().enumerate() {
         let cfg = if job.cancelable { "cancelable" } else { "default" };
-        let key = format!("{}|{}|{}|{}", g.finding.rule, g.finding.what, g.program.name, cfg);
-        if let Some(k) = known.entries.iter().find(|k| known_match(k, &spec.property, &g.finding, &g.program.name, job.cancelable)) {
+        let key = format!("{}|{}|{}|{}", g.finding.rule, g.finding.what, family(&g.program.name), cfg);
+        let e = groups.entry(key).or_insert((0, 0, i));
+        e.0 += 1;
+        e.1 += g.count;
+        // prefer a reproduced example with the shortest program
+        let (_, cur) = &agg.findings[e.2];
+        if (g.reproduced && !cur.reproduced) || (g.reproduced == cur.reproduced && g.program.short().len() < cur.program.short().len()) {
+            e.2 = i;
+        }
+    }
+    for (key, (nprog, nexec, i)) in &groups {
+        let (job, g) = &agg.findings[*i];
+        let cfg = if job.cancelable { "cancelable" } else { "default" };
+        let fam = family(&g.program.name);
+        if let Some(k) = known.entries.iter().find(|k| known_match(k, &spec.property, &g.finding, &fam, job.cancelable)) {
             *known_hits
                 .entry(format!(
-                    "KNOWN-FINDING: property={} {} [rule {}, program {}, {} configuration] ({})",
+                    "KNOWN-FINDING: property={} {} [rule {}, programs {}, {} configuration] ({})",
                     spec.property, g.finding.what, g.finding.rule, k.program, k.config, k.description
                 ))
-                .or_insert(0) += g.count;
+                .or_insert(0) += nexec;
             continue;
         }
         if !g.reproduced {
@@ -622,8 +639,9 @@ fn finish_check(spec: &CheckSpec, agg: Agg, t0: Instant) -> i32 {
         let path = format!("{dir}/{}-{:016x}.json", spec.property, hash_of(&key));
         std::fs::write(&path, serde_json::to_string_pretty(&rp).unwrap()).unwrap();
         println!("VIOLATION property={} replay={}", spec.property, path);
-        println!("  {} / {} [{} , {}]: {}", g.finding.rule, g.finding.what, g.program.name, cfg, g.finding.detail);
-        violation_list.push(serde_json::json!({"rule": g.finding.rule, "what": g.finding.what, "program": g.program.name, "config": cfg, "executions": g.count, "replay": path}));
+        println!("  {} / {} [{} , {}; {} programs, {} executions]: {}", g.finding.rule, g.finding.what, fam, cfg, nprog, nexec, g.finding.detail);
+        println!("  e.g. {}", g.program.short());
+        violation_list.push(serde_json::json!({"rule": g.finding.rule, "what": g.finding.what, "program_family": fam, "config": cfg, "programs": nprog, "executions": nexec, "replay": path}));
     }
     for (k, n) in &known_hits {
         println!("{k} [{n} executions]");
